@@ -158,6 +158,50 @@ class RecordLoop:
                         effs.append(ne)
                 a = fc.assignment(conds)
                 self.paths.append(dict(conds=conds, assign=a, effects=effs, exit=k, state=st))
+        self.sroa = None
+        self._sroa_detect()
+
+    # ---- loop state kept in one private struct (`current.mapping`, `current.unique_methods`): scalar replacement -------------
+    def _sroa_detect(self):
+        """If the per-method vectors are reached through `V.F.members..` (one more field than the class in progress has), the
+        loop state is a struct V whose field F is the class in progress: every field of V is treated as a variable of its own
+        (`V.F`), a whole-struct assignment `V = S { F: a, G: b }` as the assignments `V.F = a; V.G = b`."""
+        cand = set()
+        for p_ in self.paths:
+            for e in p_["effects"]:
+                if e[0] == "push" and e[1][0] == "slot":
+                    pl = e[1][1]
+                    while pl[0] == "slot":
+                        pl = pl[1]
+                    if pl[0] == "place" and len(pl[2]) == 2 and pl[2][1] in ("members", "members_by_params") and pl[2][0] != "class":
+                        cand.add((pl[1], pl[2][0]))
+        if len(cand) != 1:
+            return
+        (V, F_), = cand
+        self.sroa = (V, F_)
+        for p_ in self.paths:
+            p_["conds"] = tuple((fc.rewrite(a, self._sroa_term), pol) for a, pol in p_["conds"])
+            p_["assign"] = fc.assignment(p_["conds"])
+            p_["effects"] = self._sroa_effects(p_["effects"])
+
+    def _sroa_term(self, t):
+        V = self.sroa[0]
+        if t[0] == "place" and t[1] == V and t[2]:
+            return ("place", V + "." + t[2][0], tuple(t[2][1:]))
+        if t[0] == "field" and t[1][0] == "loop" and t[1][1] == V:
+            return ("loop", V + "." + t[2], t[1][2])
+        return None
+
+    def _sroa_effects(self, effs):
+        V = self.sroa[0]
+        out = []
+        for e in effs:
+            if e[0] == "assign" and e[1] == ("place", V, ()) and e[2][0] == "adt":
+                for fn, fv in e[2][3]:
+                    out.append(("assign", ("place", V + "." + fn, ()), fc.rewrite(fv, self._sroa_term)))
+                continue
+            out.append(fc.rewrite(e, self._sroa_term))
+        return out
 
     def arm(self, variant):
         """paths on which the record is `variant` (None: iterator exhausted)"""
@@ -195,8 +239,13 @@ class RecordLoop:
                 if ne is not None:
                     effs.append(ne)
             if seen_loop:
-                out.append(dict(conds=tuple((fc.rewrite(a, norm_term), p) for a, p in st.conds), effects=effs,
-                                value=fc.rewrite(v, norm_term), raw_effects=st.effects))
+                d = dict(conds=tuple((fc.rewrite(a, norm_term), p) for a, p in st.conds), effects=effs,
+                         value=fc.rewrite(v, norm_term), raw_effects=st.effects)
+                if self.sroa:
+                    d["conds"] = tuple((fc.rewrite(a, self._sroa_term), pol) for a, pol in d["conds"])
+                    d["effects"] = self._sroa_effects(d["effects"])
+                    d["value"] = fc.rewrite(d["value"], self._sroa_term)
+                out.append(d)
         return out
 
 
